@@ -38,10 +38,13 @@ class C17(Prop):
                 "compressAxis_spec", "keptPositions_spec", "compressAxis_ok_iff", "dropna_spec", "dropna_error", "dropna_rank1",
                 "dropna_no_nan", "takeAxis_position_spec", "takeAxis_label_spec", "takeAxis_label_ok", "fillna_no_nan", "fillna_idempotent",
                 "setna_isnan", "setna_fillna"]
-    rule = ("arrays of rank 1-4 with unsorted int/float/str labels, every axis by name / position, NaN patterns none / "
-            "some / whole slices / all; sort_axis (plain, key function, dict key), take_axis (labels / positions, repeats, "
-            "mode raise / clip), compress_axis with every mask, dropna with minvalid from 0 to the slice size (default "
-            "for 1-D), fillna / setna on int and float data with scalar, list and boolean-mask arguments. "
+    rule = ("arrays of rank 1-4 with unsorted int/float/str labels, every axis by name / position / negative position, NaN "
+            "patterns none / some / whole slices / all; sort_axis (plain, key function, dict key), take_axis (labels / "
+            "positions / indexing left out, repeats, array or list indices, mode raise / clip / wrap, side=), compress_axis "
+            "with every mask (ndarray, list, DimArray; masks of the wrong length), compress / a[mask] with a full-shape "
+            "mask (ndarray or DimArray), dropna with minvalid from 0 to the slice size (default for 1-D), axis left out, "
+            "int data, fillna / setna on int and float data with scalar, list and boolean-mask (ndarray or DimArray) "
+            "arguments; na= sentinels for dropna / fillna / setna (oracle only). "
             "Non-trivial = operated axis longer than 1; distinct = canonical JSON")
     assumptions = ["labels unique per axis"]
 
@@ -55,7 +58,7 @@ class C17(Prop):
                 "setna": mv.setna, "_matches": mv._matches}
 
     def gen(self, rng, tier):
-        n = 1200 if tier == "quick" else 30000
+        n = 1400 if tier == "quick" else 30000
         for _ in range(n):
             rank = rng.choice([1, 2, 2, 3, 4])
             arr = gen.dtype_variants(rng, gen.rand_array(rng, rank=rank, maxn=4, minn=1))
@@ -70,7 +73,7 @@ class C17(Prop):
             shape = [len(a["labels"]) for a in arr["axes"]]
             L = arr["axes"][d]["labels"]
             r = rng.random()
-            if r < 0.18:
+            if r < 0.16:
                 arr["vkind"] = rng.choice(["f", "i"])
                 how = rng.choice(["plain", "plain", "key_neg", "dict"])
                 if how == "key_neg" and arr["axes"][d]["kind"] == "O":
@@ -84,29 +87,87 @@ class C17(Prop):
             elif r < 0.36:
                 arr["vkind"] = rng.choice(["f", "i"])
                 mode = rng.choice(["label", "label", "position"])
+                c = {"op": "take_axis", "array": arr, "axis": axk}
                 if mode == "label":
                     ix = [rng.choice(L) for _ in range(rng.randint(0, 4))]
-                    clip = rng.random() < 0.25
+                    clip = rng.random() < 0.3
                     if rng.random() < 0.3:
                         ix.insert(rng.randint(0, len(ix)), gen.absent_label(rng, arr["axes"][d]))
+                    if rng.random() < 0.25:
+                        mode = "default"                # indexing= left out: the library's default is by label
+                    if rng.random() < 0.25:
+                        c["side"] = rng.choice(["left", "right"])
                 else:
                     nn = len(L)
-                    ix = [["n", rng.randint(-nn, nn - 1) if rng.random() < 0.85 else rng.randint(-nn - 2, nn + 2), 1] for _ in range(rng.randint(0, 4))]
+                    ix = [["n", rng.randint(-nn, nn - 1) if rng.random() < 0.8 else rng.randint(-nn - 3, nn + 3), 1] for _ in range(rng.randint(0, 4))]
                     clip = rng.random() < 0.3
-                yield {"op": "take_axis", "array": arr, "axis": axk, "indices": ix, "indexing": mode, "clip": clip}
+                    if rng.random() < 0.25:
+                        c["mode"] = "wrap"              # numpy.take's third mode: positions modulo the axis length
+                        clip = False
+                c.update({"indices": ix, "indexing": mode, "clip": clip})
+                if rng.random() < 0.3:
+                    c["ixform"] = "list"                # a python list of labels / positions, as in the docstring
+                yield c
             elif r < 0.48:
                 arr["vkind"] = rng.choice(["f", "i"])
-                yield {"op": "compress_axis", "array": arr, "axis": axk, "mask": [rng.random() < 0.5 for _ in L]}
-            elif r < 0.75:
-                arr["vkind"] = "f"
-                arr["nan_at"] = nan_pattern(rng, shape, rng.choice(["none", "some", "some", "fibre", "all"]))
+                c = {"op": "compress_axis", "array": arr, "axis": axk, "mask": [rng.random() < 0.5 for _ in L]}
+                q = rng.random()
+                if q < 0.2:
+                    c["maskform"] = "list"
+                elif q < 0.4:
+                    c["maskform"] = "dimarray"
+                if rng.random() < 0.12:
+                    # a mask that does not have the length of the axis: never a silent mis-selection
+                    if rng.random() < 0.5 and len(L) > 1:
+                        c["mask"] = c["mask"][:rng.randint(1, len(L) - 1)]
+                    else:
+                        c["mask"] = c["mask"] + [rng.random() < 0.5 for _ in range(rng.randint(1, 2))]
+                    if c.get("maskform") == "dimarray":
+                        del c["maskform"]
+                yield c
+            elif r < 0.54:
+                # compress proper: a boolean mask of the full shape (a[a > 1]); for a 1-D array it selects the slices of
+                # its only axis, for N-d arrays every selected cell keeps its labels
+                arr["vkind"] = rng.choice(["f", "i"])
+                nn = int(np.prod(shape))
+                dens = rng.choice([0.0, 0.3, 0.5, 1.0])
+                kinds = set("s" if a_["kind"] == "O" else "n" for a_ in arr["axes"])
+                if rank >= 2 and len(kinds) == 2:
+                    # TODO(defect): N-d compress over axes of mixed string / numeric kinds turns the numeric labels
+                    # into their string representation (('3', 'a') for the cell labelled (3, 'a')); skipped for now
+                    for a_ in arr["axes"]:
+                        if a_["kind"] == "O":
+                            a_.update(gen.rand_axis(rng, a_["name"], kind=rng.choice(["i", "f"]), n=len(a_["labels"])))
+                            a_.pop("ldtype", None)
+                yield {"op": "compress", "array": arr, "mask": [rng.random() < dens for _ in range(nn)],
+                       "maskform": rng.choice(["array", "dimarray", "getitem", "getitem_dimarray"])}
+            elif r < 0.76:
+                arr["vkind"] = "f" if rng.random() < 0.85 else "i"
+                c = {"op": "dropna", "array": arr, "axis": axk}
+                pat = nan_pattern(rng, shape, rng.choice(["none", "some", "some", "fibre", "all"]))
+                if rng.random() < 0.15:
+                    # na=: the cells that count as missing are those equal to the sentinel
+                    c["na"] = sentinel(rng, arr["vkind"])
+                    c["sent_at"] = pat
+                elif arr["vkind"] == "f":
+                    arr["nan_at"] = pat
                 slice_size = int(np.prod(shape)) // max(len(L), 1)
-                mv = None if (rank == 1 or rng.random() < 0.35) else rng.randint(0, slice_size)
-                yield {"op": "dropna", "array": arr, "axis": axk, "minvalid": mv}
-            elif r < 0.87:
-                arr["vkind"] = "f"
-                arr["nan_at"] = nan_pattern(rng, shape, rng.choice(["none", "some", "fibre", "all"]))
-                yield {"op": "fillna", "array": arr, "fill": rng.choice(["int", "float"]), "inplace": rng.random() < 0.3}
+                c["minvalid"] = None if (rank == 1 or rng.random() < 0.35) else rng.randint(0, slice_size)
+                if rng.random() < 0.15:
+                    c["axis"] = ["default"]             # axis left out: the first dimension
+                yield c
+            elif r < 0.88:
+                arr["vkind"] = "f" if rng.random() < 0.7 else "i"
+                c = {"op": "fillna", "array": arr, "fill": rng.choice(["int", "float"]), "inplace": rng.random() < 0.3}
+                pat = nan_pattern(rng, shape, rng.choice(["none", "some", "fibre", "all"]))
+                if rng.random() < (0.2 if arr["vkind"] == "f" else 0.5):
+                    c["na"] = sentinel(rng, arr["vkind"])
+                    c["sent_at"] = pat
+                    if arr["vkind"] == "f" and rng.random() < 0.5:
+                        arr["nan_at"] = [i for i in nan_pattern(rng, shape, "some") if i not in pat]   # NaN is not the sentinel: stays
+                elif arr["vkind"] == "f":
+                    arr["nan_at"] = pat
+                yield c
             else:
                 arr["vkind"] = rng.choice(["f", "i", "i"])
                 nn = int(np.prod(shape))
@@ -114,14 +175,20 @@ class C17(Prop):
                 hits = sorted(rng.sample(range(nn), rng.randint(0, min(nn, 3)))) if nn else []
                 if how == "scalar":
                     hits = hits[:1]
-                yield {"op": "setna", "array": arr, "how": how, "hits": hits, "inplace": rng.random() < 0.3}
+                c = {"op": "setna", "array": arr, "how": how, "hits": hits, "inplace": rng.random() < 0.3}
+                if how != "scalar" and how != "list" and rng.random() < 0.4:
+                    c["maskform"] = "dimarray"          # the documented form a.setna(a > 1)
+                if rng.random() < 0.15:
+                    c["na"] = sentinel(rng, rng.choice([arr["vkind"], "f"]))
+                yield c
 
     # ------------------------------------------------------------ implementation side
     def impl(self, c):
         toks = core.AttrTokens()
-        a = core.build_array(c["array"], 0)
+        a = build(c)
         before = core.obs_array(a, toks)
-        ax = c["axis"][1] if "axis" in c else None
+        ax = axis_arg(c)
+        nakw = {} if c.get("na") is None else {"na": na_py(c)}
 
         def run():
             with warnings.catch_warnings():
@@ -139,34 +206,60 @@ class C17(Prop):
                         r = a.sort_axis(axis=ax, key=dict(zip(labs, c["ranks"])))
                 elif c["op"] == "take_axis":
                     pos = a.dims.index(ax) if isinstance(ax, str) else ax
-                    kind = c["array"]["axes"][pos % a.ndim]["kind"] if c["indexing"] == "label" else "i"
-                    ix = core.label_array(c["indices"], kind) if c["indices"] else np.array([], dtype=int)
-                    r = a.take_axis(ix, axis=ax, indexing=c["indexing"], mode="clip" if c["clip"] else "raise")
+                    by_label = c["indexing"] in ("label", "default")
+                    kind = c["array"]["axes"][pos % a.ndim]["kind"] if by_label else "i"
+                    if c.get("ixform") == "list":
+                        ix = [core.dec_label(l, kind) for l in c["indices"]]
+                    else:
+                        ix = core.label_array(c["indices"], kind) if c["indices"] else np.array([], dtype=int)
+                    kw = {"axis": ax, "mode": take_mode(c)}
+                    if c["indexing"] != "default":
+                        kw["indexing"] = c["indexing"]
+                    if c.get("side"):
+                        kw["side"] = c["side"]
+                    r = a.take_axis(ix, **kw)
                 elif c["op"] == "compress_axis":
-                    r = a.compress_axis(np.array(c["mask"], dtype=bool), axis=ax)
+                    m = np.array(c["mask"], dtype=bool)
+                    if c.get("maskform") == "list":
+                        m = [bool(x) for x in c["mask"]]
+                    elif c.get("maskform") == "dimarray":
+                        m = DimArray(m, axes=[a.axes[ax].copy()])
+                    r = a.compress_axis(m, axis=ax)
+                elif c["op"] == "compress":
+                    m = np.array(c["mask"], dtype=bool).reshape(a.shape)
+                    if c["maskform"] in ("dimarray", "getitem_dimarray"):
+                        m = DimArray(m, axes=[x.copy() for x in a.axes])
+                    r = a[m] if c["maskform"].startswith("getitem") else a.compress(m)
                 elif c["op"] == "dropna":
-                    r = a.dropna(axis=ax) if c["minvalid"] is None else a.dropna(axis=ax, minvalid=c["minvalid"])
+                    kw = dict(nakw)
+                    if c["axis"][0] != "default":
+                        kw["axis"] = ax
+                    if c["minvalid"] is not None:
+                        kw["minvalid"] = c["minvalid"]
+                    r = a.dropna(**kw)
                 elif c["op"] == "fillna":
                     v = 9 if c["fill"] == "int" else 2.5
-                    r = a.fillna(v, inplace=c["inplace"])
+                    r = a.fillna(v, inplace=c["inplace"], **nakw)
                     if c["inplace"]:
                         r = a
                 else:
                     flat = a.values.reshape(-1)
+                    def mk(hits):
+                        m = np.zeros(a.size, dtype=bool); m[hits] = True
+                        m = m.reshape(a.shape)
+                        return DimArray(m, axes=[x.copy() for x in a.axes]) if c.get("maskform") == "dimarray" else m
                     if c["how"] == "mask":
-                        m = np.zeros(a.size, dtype=bool); m[c["hits"]] = True
-                        arg = m.reshape(a.shape)
+                        arg = mk(c["hits"])
                     elif c["how"] == "scalar":
                         arg = flat[c["hits"][0]].item() if c["hits"] else -12345
                     elif c["how"] in ("mixed", "mixed_mask_first") and len(c["hits"]) >= 2:
                         # a sequence holding values AND a boolean mask (the documented form a.setna([-99, a > 1]))
-                        m = np.zeros(a.size, dtype=bool); m[c["hits"][1:]] = True
-                        arg = [flat[c["hits"][0]].item(), m.reshape(a.shape)]
+                        arg = [flat[c["hits"][0]].item(), mk(c["hits"][1:])]
                         if c["how"] == "mixed_mask_first":
                             arg = arg[::-1]
                     else:
                         arg = [flat[i].item() for i in c["hits"]]
-                    r = a.setna(arg, inplace=c["inplace"])
+                    r = a.setna(arg, inplace=c["inplace"], **nakw)
                     if c["inplace"]:
                         r = a
             return core.obs_array(r, toks)
@@ -178,11 +271,15 @@ class C17(Prop):
         return out
 
     def request(self, c):
+        if not modelled(c):
+            # na= sentinels, the full-shape compress and masks of the wrong length are not in the mirror: the oracles decide
+            return {"op": "union", "a": {"name": "x", "kind": "i", "labels": []}, "b": {"name": "x", "kind": "i", "labels": []}, "join": "outer"}
         toks = core.AttrTokens()
         arr = core.lean_array(gen.clean(c["array"]), toks)
+        axk = ["pos", 0] if c.get("axis", ["default"])[0] == "default" else c["axis"]
         if c["op"] == "sort_axis":
             if c["how"] == "plain":
-                return {"op": "sort_axis", "arrays": [arr], "axis": c["axis"]}
+                return {"op": "sort_axis", "arrays": [arr], "axis": axk}
             # sorting by a key = positional take by the argsort of the keys (the mirror of `argsort(seq, key)`)
             d = axis_pos(c)
             L = c["array"]["axes"][d]["labels"]
@@ -193,39 +290,46 @@ class C17(Prop):
             else:
                 keys = c["ranks"]
             order = sorted(range(len(L)), key=lambda i: keys[i])
-            return {"op": "transform", "fn": "take_axis", "arrays": [arr], "axis": c["axis"],
+            return {"op": "transform", "fn": "take_axis", "arrays": [arr], "axis": axk,
                     "indices": [["n", i, 1] for i in order], "indexing": "position", "clip": False}
         if c["op"] == "take_axis":
-            return {"op": "transform", "fn": "take_axis", "arrays": [arr], "axis": c["axis"], "indices": c["indices"],
-                    "indexing": c["indexing"], "clip": c["clip"]}
+            mode, ix = take_mode(c), c["indices"]
+            if mode == "wrap":
+                # numpy.take(mode='wrap') = the positions modulo the axis length, none of them out of range any more
+                n = len(c["array"]["axes"][axis_pos(c)]["labels"])
+                ix = [["n", x[1] % n, 1] for x in ix]
+            return {"op": "transform", "fn": "take_axis", "arrays": [arr], "axis": axk, "indices": ix,
+                    "indexing": "position" if c["indexing"] == "position" else "label", "clip": mode == "clip"}
         if c["op"] == "compress_axis":
-            return {"op": "transform", "fn": "compress_axis", "arrays": [arr], "axis": c["axis"], "mask": c["mask"]}
+            return {"op": "transform", "fn": "compress_axis", "arrays": [arr], "axis": axk, "mask": c["mask"]}
         if c["op"] == "dropna":
-            return {"op": "transform", "fn": "dropna", "arrays": [arr], "axis": c["axis"], "minvalid": c["minvalid"]}
+            return {"op": "transform", "fn": "dropna", "arrays": [arr], "axis": axk, "minvalid": c["minvalid"]}
         if c["op"] == "fillna":
             return {"op": "transform", "fn": "fillna", "arrays": [arr], "fillkind": "i" if c["fill"] == "int" else "f"}
         return {"op": "transform", "fn": "setna", "arrays": [arr], "hits": c["hits"]}
 
     def judge(self, c, io, ans):
-        lean = ans["lib"]
+        lean = ans["lib"] if modelled(c) else None
         bad, prop_bad = [], []
-        a = core.build_array(c["array"], 0)
+        a = build(c)
         fillv = 9 if c.get("fill") == "int" else 2.5
-        if "ok" in lean:
-            env = core.CellEnv([a.values], fill=fillv)
-            k = lean["ok"]["vkind"]
-            lo = core.lean_obs_to_canon(lean["ok"], env, cast_kind=k if k in "fi" else None); lo["scalar"] = False
-            lean = {"ok": lo}
-        d = core.diff_obs(io, lean, keys=("dims", "shape", "axes", "values", "attrs", "vkind"))
-        bad += [("M." + x if x == "errclass" else x) for x in d]
+        if lean is not None:
+            if "ok" in lean:
+                env = core.CellEnv([a.values], fill=fillv)
+                k = lean["ok"]["vkind"]
+                lo = core.lean_obs_to_canon(lean["ok"], env, cast_kind=k if k in "fi" else None); lo["scalar"] = False
+                lean = {"ok": lo}
+            d = core.diff_obs(io, lean, keys=("dims", "shape", "axes", "values", "attrs", "vkind"))
+            bad += [("M." + x if x == "errclass" else x) for x in d]
         if "ok" in io:
             inp, out = io["input"], io["ok"]
             if out["attrs"] != inp["attrs"]:
                 prop_bad.append("attrs")
-            if c["op"] in ("sort_axis", "take_axis", "compress_axis", "dropna"):
+            if c["op"] == "compress":
+                prop_bad += check_compress(c, inp, out)
+            elif c["op"] in ("sort_axis", "take_axis", "compress_axis", "dropna"):
                 dname = inp["dims"][axis_pos(c)]
-                if not (c["op"] == "take_axis" and c.get("clip") and c["indexing"] == "label"):
-                    prop_bad += slices_travel(inp, out, dname)
+                prop_bad += slices_travel(inp, out, dname)
                 L = inp["axes"][axis_pos(c)]["labels"]
                 ol = out["axes"][axis_pos(c)]["labels"] if out["dims"] == inp["dims"] else None
                 if ol is not None:
@@ -242,46 +346,54 @@ class C17(Prop):
                             rk = dict(zip(map(lab_key, L), c["ranks"]))
                             if [rk[lab_key(x)] for x in ol] != sorted(c["ranks"]):
                                 prop_bad.append("axes.labels:key_order")
-                    if c["op"] == "compress_axis" and [lab_key(x) for x in ol] != [lab_key(l) for l, m in zip(L, c["mask"]) if m]:
-                        prop_bad.append("axes.labels:mask")
-                    if c["op"] == "take_axis" and not c.get("clip"):
-                        if c["indexing"] == "label":
-                            want = [lab_key(x) for x in c["indices"]]
-                        else:
-                            want = [lab_key(L[x[1] % len(L)]) for x in c["indices"]] if L else []
-                        if [lab_key(x) for x in ol] != want:
+                    if c["op"] == "compress_axis":
+                        # numpy.compress: positions beyond the end of a short mask are not selected; a True beyond the end
+                        # of the axis selects nothing that exists (an error)
+                        mask = list(c["mask"]) + [False] * (len(L) - len(c["mask"]))
+                        if any(mask[len(L):]):
+                            prop_bad.append("outcome:ok")
+                        elif [lab_key(x) for x in ol] != [lab_key(l) for l, m in zip(L, mask) if m]:
+                            prop_bad.append("axes.labels:mask")
+                    if c["op"] == "take_axis":
+                        want = take_expected(c, L)
+                        if want == "error":
+                            prop_bad.append("outcome:ok")
+                        elif want is not None and [lab_key(x) for x in ol] != want:
                             prop_bad.append("axes.labels:requested")
                     if c["op"] == "dropna":
                         # kept labels, in order: those whose slice has at least minvalid valid cells (default: no NaN)
-                        vals = np.array([float("nan") if v == ["nan"] else 0.0 for v in inp["values"]]).reshape(inp["shape"])
+                        vals = np.array(missing_cells(c, inp["values"])).reshape(inp["shape"])
                         pos = axis_pos(c)
                         other = tuple(i for i in range(len(inp["shape"])) if i != pos)
-                        nn = np.isnan(vals).sum(axis=other) if other else np.isnan(vals).astype(int)
+                        nn = vals.sum(axis=other) if other else vals.astype(int)
                         size = int(np.prod([inp["shape"][i] for i in other])) if other else 1
                         mv = c["minvalid"]
                         keep = [(size - k) >= (size if mv is None else mv) for k in np.atleast_1d(nn)]
                         if [lab_key(x) for x in ol] != [lab_key(l) for l, kp in zip(L, keep) if kp]:
                             prop_bad.append("axes.labels:dropna")
             elif c["op"] == "fillna":
-                for x, y in zip(inp["values"], out["values"]):
-                    if x == ["nan"]:
+                for x, y, miss in zip(inp["values"], out["values"], missing_cells(c, inp["values"])):
+                    if miss:
                         if y != core.canon_value(float(fillv)) and y != core.canon_value(fillv):
                             prop_bad.append("values:filled"); break
-                    elif x != y:
+                    elif not same_number(x, y):
                         prop_bad.append("values:frame"); break
                 if [(x["name"], x["labels"]) for x in out["axes"]] != [(x["name"], x["labels"]) for x in inp["axes"]]:
                     prop_bad.append("axes")
             else:
                 hits = set(c["hits"])
+                na = ["nan"] if c.get("na") is None else c["na"]
                 for i, (x, y) in enumerate(zip(inp["values"], out["values"])):
                     if i in hits:
-                        if y != ["nan"]:
+                        if not same_number(y, na):
                             prop_bad.append("values:setna"); break
-                    elif x != y and not (x[0] == "n" and y[0] == "n" and Fraction(x[1], x[2]) == Fraction(y[1], y[2])):
+                    elif not same_number(x, y):
                         prop_bad.append("values:frame"); break
                 if [(x["name"], x["labels"]) for x in out["axes"]] != [(x["name"], x["labels"]) for x in inp["axes"]]:
                     prop_bad.append("axes")
-        elif "ok" in lean:
+        elif lean is not None and "ok" in lean:
+            prop_bad.append("outcome:" + io["err"])
+        elif lean is None and not (c["op"] == "compress_axis" and len(c["mask"]) != len(io["input"]["axes"][axis_pos(c)]["labels"])):
             prop_bad.append("outcome:" + io["err"])
         if io.get("operand_modified"):
             prop_bad.append("operand_modified")
@@ -295,9 +407,17 @@ class C17(Prop):
     def features(self, c, io):
         f = {"outcome": "err:" + io["err"] if "err" in io else "ok", "op": c["op"], "rank": len(c["array"]["axes"]),
              "vkind": c["array"].get("vkind"), "nan": bool(c["array"].get("nan_at"))}
-        for k in ("how", "indexing", "clip", "minvalid", "inplace"):
+        for k in ("how", "indexing", "clip", "minvalid", "inplace", "side", "ixform", "maskform"):
             if k in c:
                 f[k] = c[k]
+        if c["op"] == "take_axis":
+            f["mode"] = take_mode(c)
+        if "axis" in c:
+            f["axis_form"] = c["axis"][0] if c["axis"][0] != "pos" else ("pos" if c["axis"][1] >= 0 else "negpos")
+        f["na"] = "sentinel" if c.get("na") is not None else "nan"
+        if c["op"] == "compress_axis":
+            f["masklen"] = "axis" if len(c["mask"]) == len(c["array"]["axes"][axis_pos(c)]["labels"]) else "wrong"
+        f["modelled"] = modelled(c)
         return f
 
     def size(self, c):
@@ -311,7 +431,117 @@ class C17(Prop):
 def axis_pos(c):
     dims = [a["name"] for a in c["array"]["axes"]]
     k = c["axis"]
+    if k[0] == "default":
+        return 0
     return dims.index(k[1]) if k[0] == "name" else k[1] % len(dims)
+
+
+def axis_arg(c):
+    k = c.get("axis")
+    return None if k is None or k[0] == "default" else k[1]
+
+
+def take_mode(c):
+    return c.get("mode") or ("clip" if c["clip"] else "raise")
+
+
+def modelled(c):
+    """does the Lean mirror model this form?"""
+    if c.get("na") is not None or c["op"] == "compress":
+        return False
+    if c["op"] == "compress_axis" and len(c["mask"]) != len(c["array"]["axes"][axis_pos(c)]["labels"]):
+        return False
+    return True
+
+
+def sentinel(rng, vkind):
+    """a value that stands for 'missing' (na=...), of the array's kind; never one of the generated cell values"""
+    return ["n", -99, 1] if vkind == "i" else rng.choice([["n", -199, 2], ["n", -99, 1]])
+
+
+def na_py(c):
+    fr = Fraction(c["na"][1], c["na"][2])
+    return int(fr) if (fr.denominator == 1 and c["array"].get("vkind") == "i") else float(fr)
+
+
+def build(c):
+    """the input array; the cells listed in sent_at hold the na= sentinel"""
+    a = core.build_array(c["array"], 0)
+    if c.get("sent_at"):
+        v, s = a.values, na_py(c)
+        for i in c["sent_at"]:
+            v[np.unravel_index(i, v.shape)] = s
+    return a
+
+
+def same_number(x, y):
+    """canonical cell values equal as numbers (an integer and the float of the same value are the same cell content)"""
+    if x == y:
+        return True
+    return x[0] == "n" and y[0] == "n" and Fraction(x[1], x[2]) == Fraction(y[1], y[2])
+
+
+def missing_cells(c, values):
+    """which (canonical) cell values count as missing: NaN, or the cells equal to the na= sentinel"""
+    if c.get("na") is None:
+        return [v == ["nan"] for v in values]
+    return [same_number(v, c["na"]) for v in values]
+
+
+def take_expected(c, L):
+    """labels that take_axis must return, as lab_keys; "error" when the request cannot be honoured; None = not pinned down"""
+    mode, n = take_mode(c), len(L)
+    if c["indexing"] == "position":
+        pos = [x[1] for x in c["indices"]]
+        if mode == "raise":
+            if any(not (-n <= i < n) for i in pos):
+                return "error"
+            return [lab_key(L[i % n]) for i in pos]
+        if mode == "wrap":
+            return [lab_key(L[i % n]) for i in pos]
+        return [lab_key(L[min(max(i, 0), n - 1)]) for i in pos]       # numpy.take(mode='clip'): no negative positions
+    have = [lab_key(l) for l in L]
+    req = [lab_key(x) for x in c["indices"]]
+    if mode == "raise":
+        return "error" if any(k not in have for k in req) else req
+    if c.get("side") == "right":
+        return None
+    # clip: a label that is present is selected; an absent one goes where it would be inserted in the sorted labels
+    # (the least label above it), clipped to the last one
+    out = []
+    for k in req:
+        if k in have:
+            out.append(k)
+        else:
+            try:
+                above = [h for h in have if h > k]
+            except TypeError:
+                return None
+            out.append(min(above) if above else max(have))
+    return out
+
+
+def check_compress(c, inp, out):
+    """a[mask] with a mask of the full shape: the selected cells in C order, each with its own labels"""
+    bad = []
+    sel = [i for i, m in enumerate(c["mask"]) if m]
+    if len(out["shape"]) != 1 or out["shape"][0] != len(sel):
+        return ["shape"]
+    if out["values"] != [inp["values"][i] for i in sel]:
+        bad.append("values:mask")
+    coords = list(itertools.product(*[ax["labels"] for ax in inp["axes"]]))
+    want = [[lab_key(l) for l in coords[i]] for i in sel]
+    got = out["axes"][0]["labels"]
+    if len(inp["dims"]) == 1:
+        if out["dims"] != inp["dims"]:
+            bad.append("dims")
+        if [[lab_key(x)] for x in got] != want:
+            bad.append("axes.labels:mask")
+    else:
+        for g, w in zip(got, want):
+            if g[0] != "t" or [lab_key(x) for x in g[1]] != w:
+                bad.append("axes.labels:cell"); break
+    return bad
 
 
 PROP = C17()
